@@ -667,9 +667,9 @@ impl ClusterActor {
                             break 'iter;
                         }
 
-                        // Check if event is beyond watermark (safety check - uses
-                        // partition_sequence)
-                        if event.partition_sequence > watermark {
+                        // Check if event is at or beyond watermark (the watermark is the
+                        // number of confirmed events - uses partition_sequence)
+                        if event.partition_sequence >= watermark {
                             break 'iter;
                         }
 
